@@ -124,6 +124,8 @@ StepBad(e, SA, RA, In, Ord, Cl) ==
              \/ (e.op = "try_recv" /\ res = "closed" /\ ~(oClosed /\ oAcc = {}))
              \/ (e.op = "try_recv" /\ res = "empty" /\ oClosed)
              \/ ("closed" \in DOMAIN e /\ e.closed # Cl)
+             \* dropping the last receiver discards the buffered values immediately
+             \/ (ClearsNow(e) /\ "dropped" \in DOMAIN e /\ SeqSet(e.dropped) # expectDrop)
       \* ---- C17: future / stream protocol
       c17 == \/ ("sterm" \in DOMAIN e /\ e.sterm # SetToSortedSeq({s \in S : SA[s] = "done"}))
              \/ ("rterm" \in DOMAIN e /\ e.rterm # SetToSortedSeq({r \in R : RA[r] = "done"}))
